@@ -385,6 +385,21 @@ func checkC13(h *History, vs []*opView) {
 		if garbage || limiterOn(h.RP) || h.RP.CloseAtUs > 0 {
 			continue
 		}
+		// a complete query that the proxy answers by closing the connection
+		// less than a request deadline later was not decoded: whatever the
+		// segmentation, the listener's idle time-out (>= 8 s here) cannot have
+		// run out on a connection that has just delivered a frame
+		for _, v := range ops {
+			if v.q == nil || v.q.Has(refdns.BitQR) || !v.o.Sent || v.o.Err != "" || len(v.o.Resps) > 0 {
+				continue
+			}
+			gone := cr.PeerGoneAt
+			clientKept := cr.ClosedAt - v.o.SentAt
+			if gone != 0 && gone > v.o.SentAt && gone < v.o.SentAt+requestDeadline && clientKept >= requestDeadline+2*time.Second && (cr.ClosedAt == 0 || gone < cr.ClosedAt) {
+				h.S.Fail("C13", "closed-with-query-pending", "conn %d (%s): the query with id %d was completely sent at %v and never answered: the proxy closed the connection %v later (the client kept it open for %v)", ci, cr.Proto, v.q.ID, v.o.SentAt, gone-v.o.SentAt, clientKept)
+				break
+			}
+		}
 		// every decodable query answered exactly once (ids as multiset)
 		want := map[uint16]int{}
 		optional := map[uint16]int{} // QR=1 messages: the statement is silent on whether they are answered
